@@ -55,14 +55,19 @@ func checkC19(p *Prog, r *Report) {
 	r.rule("C19.O8", "the handler slot is stored only with values of static type OOBCallBackType and asserted only to that type", 2)
 	r.rule("C19.O9", "no return path leaves a mutex held (package-wide lock balance): an OOB call can never stall the stream permanently", 1)
 
+	r.rule("C19.O10", "the receive loops hand every datagram to packetInput whatever its length: no length test on the way to the call is stricter than packetInput's own minimum min(IKCP_OVERHEAD, fecHeaderSizePlus2+convSize) — a short (even empty) OOB payload is a valid packet", 2)
+
 	fEnc := p.Field("UDPSession", "fecEncoder")
 	send := p.FuncByName("(*UDPSession).SendOOB")
+
+	// ---- O10
+	checkNoLengthFilterBeforePacketInput(p, r)
 
 	// ---- O1
 	for _, name := range []string{"(*UDPSession).SendOOB", "(*UDPSession).SetOOBHandler", "(*UDPSession).GetOOBMaxSize"} {
 		fi := p.FuncByName(name)
 		c := p.CFG(fi)
-		recv := tVar(p.recvVar(fi))
+		recv := tVar(p.selfVar(fi))
 		want := eq(tFld(recv, fEnc), mk("nil"))
 		e := c.Entry()
 		ok := false
@@ -309,7 +314,7 @@ func checkC19(p *Prog, r *Report) {
 	{
 		c := p.CFG(send)
 		_ = c
-		recv := tVar(p.recvVar(send))
+		recv := tVar(p.selfVar(send))
 		hs := p.F(recv, "UDPSession", "headerSize")
 		convSize := p.ConstInt("convSize")
 		data := tVar(p.Info.Defs[send.Decl.Type.Params.List[0].Names[0]])
@@ -491,4 +496,77 @@ func (t *Term) firstFldArgs(f *types.Var) []*Term {
 		}
 	})
 	return out
+}
+
+// checkNoLengthFilterBeforePacketInput: at every call of (*UDPSession).packetInput / (*Listener).packetInput the
+// datagram is buf[:n]; a condition on the way to the call that mentions n must hold for every n >= the least
+// length packetInput accepts (an OOB packet with an empty payload: fecHeaderSizePlus2+convSize without a cipher).
+func checkNoLengthFilterBeforePacketInput(p *Prog, r *Report) {
+	minLen := min(p.ConstInt("IKCP_OVERHEAD"), p.ConstInt("fecHeaderSizePlus2")+p.ConstInt("convSize"))
+	targets := map[*types.Func]bool{p.Method("UDPSession", "packetInput"): true, p.Method("Listener", "packetInput"): true}
+	n := 0
+	for _, fi := range p.funcs {
+		if fi.Body == nil {
+			continue
+		}
+		p.AllCallsIn(fi, func(call *ast.CallExpr) {
+			if !targets[p.Callee(call)] || len(call.Args) == 0 {
+				return
+			}
+			se, ok := ast.Unparen(call.Args[0]).(*ast.SliceExpr)
+			if !ok || se.High == nil {
+				return // the datagram is handed on as received
+			}
+			n++
+			lt := stripConvs(p.Term(se.High))
+			c := p.CFG(fi)
+			pt, okp := c.PointOf(call)
+			if !okp {
+				r.undecided("C19.O10", fi.Name, p.Pos(call), "length filter before packetInput", "call not located in the flow graph")
+				return
+			}
+			good, why := true, ""
+			for _, ct := range c.DominatingConds(pt) {
+				for _, a := range Conjuncts(ct) {
+					a = stripConvs(a)
+					mentions := false
+					a.Walk(func(t *Term) {
+						if t.Key() == lt.Key() {
+							mentions = true
+						}
+					})
+					if !mentions {
+						continue
+					}
+					// n OP const (either side)
+					holdsForAll := false
+					if len(a.Args) == 2 {
+						x, y, op := a.Args[0], a.Args[1], a.Op
+						if x.IsConst() && !y.IsConst() {
+							x, y = y, x
+							op = map[string]string{"<": ">", "<=": ">=", ">": "<", ">=": "<=", "==": "==", "!=": "!="}[op]
+						}
+						if x.Key() == lt.Key() && y.IsConst() {
+							switch op {
+							case ">=":
+								holdsForAll = y.Int <= minLen
+							case ">":
+								holdsForAll = y.Int < minLen
+							case "!=":
+								holdsForAll = y.Int < minLen
+							}
+						}
+					}
+					if !holdsForAll {
+						good = false
+						why = fmt.Sprintf("the call is reached only when %s: datagrams of a length packetInput accepts (from %d bytes: an out-of-band packet with an empty payload and no cipher) are dropped before they are decrypted and classified", a.Pretty(), minLen)
+					}
+				}
+			}
+			r.check(good, "C19.O10", fi.Name, p.Pos(call), "length filter before packetInput", "none stricter than packetInput's own minimum", why)
+		})
+	}
+	if n == 0 {
+		r.bad("C19.O10", "receive loops", "-", "length filter before packetInput", "no call of packetInput with a datagram slice found", "")
+	}
 }
